@@ -161,6 +161,41 @@ type clientStreamWrapper struct {
 	grpc.ClientStream
 }
 
+// The wrapper exists only to carry the finalizer above. Each operation keeps
+// it reachable until the wrapped operation has returned: otherwise a garbage
+// collection during the caller's last use of the stream (for example a final,
+// blocked RecvMsg) could run the finalizer and cancel a call that is in progress.
+
+func (w *clientStreamWrapper) Header() (metadata.MD, error) {
+	defer runtime.KeepAlive(w)
+	return w.ClientStream.Header()
+}
+
+func (w *clientStreamWrapper) Trailer() metadata.MD {
+	defer runtime.KeepAlive(w)
+	return w.ClientStream.Trailer()
+}
+
+func (w *clientStreamWrapper) CloseSend() error {
+	defer runtime.KeepAlive(w)
+	return w.ClientStream.CloseSend()
+}
+
+func (w *clientStreamWrapper) Context() context.Context {
+	defer runtime.KeepAlive(w)
+	return w.ClientStream.Context()
+}
+
+func (w *clientStreamWrapper) SendMsg(m interface{}) error {
+	defer runtime.KeepAlive(w)
+	return w.ClientStream.SendMsg(m)
+}
+
+func (w *clientStreamWrapper) RecvMsg(m interface{}) error {
+	defer runtime.KeepAlive(w)
+	return w.ClientStream.RecvMsg(m)
+}
+
 func getPeer(baseUrl *url.URL, tls *tls.ConnectionState) *peer.Peer {
 	hostPort := baseUrl.Host
 	if !strings.Contains(hostPort, ":") {
